@@ -31,6 +31,49 @@ def need(ctx, key):
     return b
 
 
+def spurious_retry_shape(evs, ops):
+    """`loop { match flag.compare_exchange_weak(false, true, ..) { Ok(_) => return true, Err(true) => return false, Err(false) => continue } }`:
+    every atomic operation but the last is a weak CAS false -> true that FAILED ALTHOUGH IT OBSERVED `false` - the spurious failure
+    the weak form is allowed to have, the only outcome after which trying again is not waiting for the holder"""
+    for o in ops[:-1]:
+        if o['m'] != 'compare_exchange_weak':
+            return False
+        a = o['args']
+        if not (is_const(a[0], 0) and is_const(a[1], 1)):
+            return False
+        v = o['ev'].val
+        failed = [e for e in evs if e.name == 'BR' and e.data['label'] == 'cas' and contains(e.data['val'], v) and e.data['outcome'] == 'Err']
+        if not failed:
+            return False
+        obs = ('field', ('downcast', v, 'Err'), '0')
+        seen = [e for e in evs if e.name == 'BR?' and e.data.get('val') == obs]
+        if len(seen) != 1:
+            return False
+        tk = seen[0].data.get('taken')
+        if not (tk and tk[0] == '0'):
+            return False  # tried again although the flag was observed set: that is waiting for the holder
+    return True
+
+
+def retry_only_after_spurious_failure(ctx, b):
+    """try_lock with a loop: every path that goes round has the shape above, one CAS per round (k = 3 rounds looked at)"""
+    ps = b.paths(max(ctx.k, 3))
+    if ps is None:
+        return False
+    some = False
+    for p in ps:
+        if p.end == 'unreachable':
+            continue
+        ops = atomic_ops(p, 'locked')
+        rounds = max([p.blocks.count(x) for x in set(map(lambda z: z if not isinstance(z, list) else tuple(z), p.blocks))] or [0])
+        if rounds <= 1 and len(ops) <= 1:
+            continue
+        some = True
+        if rounds != len(ops) or not spurious_retry_shape(ctx.sem(p), ops):
+            return False
+    return some
+
+
 @rule('M1', ['C17'], 'RawMutexLock.locked is touched only by try_lock (one CAS false->true / swap true) and unlock (store false)', skip_std_mutex=True)
 def m1(ctx):
     sites = all_atomic_sites(ctx, 'locked')
@@ -47,6 +90,10 @@ def m1(ctx):
             # test-and-test-and-set: the contended path looks at the flag before it attempts the CAS.  A load changes nothing and
             # decides nothing - M4 still demands that the spin condition answers true only with try_lock()'s own success
             continue
+        if m == 'load' and key == TRY.replace('::try_lock', '::is_locked'):
+            # lock_api's `RawMutex::is_locked` overridden with a plain load (its default is try_lock + unlock): a read-only answer
+            # to a question nobody in the crate asks; it changes nothing and no acquisition depends on it
+            continue
         if fam.is_delegate(ctx.facts, key):
             # a private helper holding the one atomic operation (`fn acquire_once(&self) -> Result<bool, bool>`, `fn release(&self)`):
             # it runs as part of its callers, whose paths (with the helper spliced in) are checked below
@@ -59,6 +106,8 @@ def m1(ctx):
         for p, evs in ret_paths(ctx, b):
             ops = atomic_ops(p, 'locked')
             ctx.oblige(1, sample='try_lock -> %s' % fmt(p.ret))
+            if len(ops) > 1 and spurious_retry_shape(evs, ops):
+                ops = ops[-1:]  # the earlier rounds changed nothing (the CAS failed) and learned nothing (the flag was clear)
             if len(ops) != 1:
                 ctx.violate(TRY, p, 'try_lock performs %d atomic operations on the flag (must be exactly one)' % len(ops))
                 continue
@@ -118,7 +167,14 @@ def m3(ctx):
         return
     ctx.instance(TRY)
     ctx.oblige(1, sample='try_lock callees: %s' % sorted(set(b.callee_names())))
-    if b.has_cycle():
+    retry_ok = None
+
+    def spurious_only():
+        nonlocal retry_ok
+        if retry_ok is None:
+            retry_ok = retry_only_after_spurious_failure(ctx, b)
+        return retry_ok
+    if b.has_cycle() and not spurious_only():
         ctx.violate(TRY, None, 'try_lock contains a loop', sig='cycle')
     seen = set()
 
@@ -132,7 +188,7 @@ def m3(ctx):
             if c is not None and fam.is_delegate(ctx.facts, c.key) and depth < 3 and c.key not in seen:
                 # a private helper: what it calls counts as called by try_lock
                 seen.add(c.key)
-                if c.has_cycle():
+                if c.has_cycle() and not spurious_only():
                     ctx.violate(TRY, None, 'try_lock calls %s, which contains a loop' % n, sig='callee-cycle:' + n)
                 scan(c, depth + 1)
                 continue
